@@ -295,6 +295,9 @@ type Spec struct {
 	// EdgeLimit is how often one CFG edge may be taken on a path (default 1:
 	// loops run 0 or 1 times; 2 lets a rule see the second iteration).
 	EdgeLimit int
+	// MarkAccepted emits a "run:<combinator>" event on the fork where a combinator that may refuse its
+	// argument accepts it (the refusing fork always carries "drop:<combinator>").
+	MarkAccepted bool
 }
 
 // Tracer enumerates paths of one root.
@@ -1087,6 +1090,9 @@ func (t *Tracer) runCombArgs(fr *Frame, c ssa.CallInstruction, callee *types.Fun
 			resKey = "v(" + (Ref{fr, v}).Key() + ")"
 		}
 		stRun, stDrop := st, st.emit(Ev{Kind: "drop:" + via, Fr: fr, Instr: c, Note: fnName(fn)})
+		if t.Spec.MarkAccepted {
+			stRun = st.emit(Ev{Kind: "run:" + via, Fr: fr, Instr: c, Note: fnName(fn)})
+		}
 		if resKey != "" {
 			stRun = stRun.withFact(resKey, true)
 			stDrop = stDrop.withFact(resKey, false)
